@@ -253,7 +253,7 @@ def main(tier, seed):
     try:
         translate()
         run.obligation("translate:steps.mutate warm-up block", True)
-    except TranslateError as e:
+    except Exception as e:  # fail closed: anything the translator cannot digest
         run.obligation("translate:steps.mutate warm-up block", False, str(e))
     run.prove("Props/C11.v", link_rels=["Link/Warmup.v"])
     try:
